@@ -115,6 +115,14 @@ class C15:
                         deps.append(["rel", rng.choice(["../foreign/x", "../../up", "./local", "sub/dir"])])
                     else:
                         deps.append(["uri", rng.choice(["docker://reg/img:1", "urn:cnb:registry:heroku/x"])])
+                # shortcut edges: depend on a composite AND (after it) on one of its own dependencies
+                for k2, v2 in list(deps):
+                    if k2 == "lib" and rng.random() < 0.5:
+                        inner = next((x for x in comps if x["id"] == v2), None)
+                        if inner:
+                            sub = [d for d in inner["deps"] if d[0] == "lib"]
+                            if sub:
+                                deps.append(list(rng.choice(sub)))
                 if rng.random() < 0.03:
                     deps.append(["lib", "verif/does-not-exist"])
                 comps.append({"dir": "meta/" + name, "id": "verif/" + name, "deps": deps})
